@@ -585,12 +585,19 @@ def _candidates(cfg):
         yield d
 
 
+SHRINK_WALL_S = 150
+
+
 def shrink(cfg, still_fails, budget=400, is_valid=valid):
-    """Greedy descent: accept any smaller valid config that still fails."""
+    """Greedy descent: accept any smaller valid config that still fails. Bounded by a number of
+    evaluations and by wall-clock time (the time bound only limits how small the witness gets, never
+    the verdict; on a tree where candidates hang it keeps the run finite)."""
+    import time
+    t_end = time.time() + SHRINK_WALL_S
     cur = dict(cfg)
     tried = 0
     improved = True
-    while improved and tried < budget:
+    while improved and tried < budget and time.time() < t_end:
         improved = False
         for cand in _candidates(cur):
             if not is_valid(cand):
@@ -606,6 +613,6 @@ def shrink(cfg, still_fails, budget=400, is_valid=valid):
                 cur = cand
                 improved = True
                 break
-            if tried >= budget:
+            if tried >= budget or time.time() >= t_end:
                 break
     return cur
